@@ -14,8 +14,9 @@ P_AtMostOneGo(o) == Cardinality({l \in L(o) : InSeq("go", o.l[l].sentS)}) <= 1
 P_GoOnlyAfterRH(o) == \A l \in L(o) : InSeq("go", o.l[l].sentS) => InSeq("RH", o.l[l].gotS)
 P_ReceiverNeedsGo(o) == \A l \in L(o) : o.l[l].stR = "records" => (InSeq("SH", o.l[l].gotR) /\ InSeq("go", o.l[l].gotR))
 P_SameLink(o) == (o.resultS \in L(o) /\ o.resultR \in L(o)) => o.resultS = o.resultR
-P_KeyHoldersOnly(o) == /\ (o.resultS \in L(o) => HonestKind(o.l[o.resultS].kind))
-                       /\ (o.resultR \in L(o) => HonestKind(o.l[o.resultR].kind))
+KeyHolderKind(k) == HonestKind(k) \/ k = "altsenderR"
+P_KeyHoldersOnly(o) == /\ (o.resultS \in L(o) => KeyHolderKind(o.l[o.resultS].kind))
+                       /\ (o.resultR \in L(o) => KeyHolderKind(o.l[o.resultR].kind))
                        /\ o.resultS # "unknown-connection" /\ o.resultR # "unknown-connection"
 P_OthersClosed(o) == /\ \A l \in L(o) : (o.resultS # "-" /\ l # o.resultS) => ~Live(o.l[l].stS)
                      /\ \A l \in L(o) : (o.resultR # "-" /\ l # o.resultR) => ~Live(o.l[l].stR)
